@@ -87,6 +87,26 @@ impl PeersStore {
     }
 }
 
+#[cfg(mainline_verif)]
+impl PeersStore {
+    #[allow(clippy::type_complexity)]
+    pub fn verif_snapshot(&self) -> Vec<(Id, Vec<(Id, SocketAddrV4)>)> {
+        self.info_hashes
+            .iter()
+            .map(|(info_hash, peers)| {
+                (
+                    *info_hash,
+                    peers.iter().map(|(id, address)| (*id, *address)).collect(),
+                )
+            })
+            .collect()
+    }
+
+    pub fn verif_caps(&self) -> (usize, usize) {
+        (self.info_hashes.cap().get(), self.max_peers.get())
+    }
+}
+
 #[cfg(test)]
 mod test {
     use super::*;
